@@ -142,6 +142,12 @@ func runC08(c *core.Ctx) {
 		target = tb.Segments[rng.Intn(len(tb.Segments)-1)]
 		targetKind = "middle"
 	}
+	if c.Case%8 == 6 {
+		// the tail follows the bare header of a segment that holds no record yet (state right after a rollover)
+		target = tb.addEmptyNewest()
+		targetKind = "newest"
+		c.Stat("target_header_only_segment", 1)
+	}
 	fsKinds := []core.FSKind{core.FSCrash, core.FSMem, core.FSOS, core.FSOSMMap}
 	tails := genTails(c, c.Thorough())
 	samples := []interface{}{}
